@@ -154,7 +154,7 @@ Definition append_attribute (s : store) (e a : id) : store :=
 Definition get_attribute_node (s : store) (e : id) (name : str) : option id :=
   find (local_is s name) (plain_attrs s e).
 
-(** [XmlAttribute::set_values], first half: the old value items lose their parent (fix D54) and
+(** [XmlAttribute::set_values], first half: the old value items lose their parent (fix DD1) and
     the list is emptied *)
 Definition detach_values (s : store) (a : id) : store :=
   fold_left (fun acc x => upd acc x (with_parent None)) (children_of s a) (upd s a (with_children [])).
